@@ -492,6 +492,8 @@ impl ContinuityStore {
         const MAX_TAIL_EVENTS: usize = 100_000;
 
         let mut tail_bytes = INITIAL_TAIL_BYTES;
+        #[cfg(rip_verif)]
+        rip_kernel::verif::point("scan.enter", "compile_input.tail");
         while tail_bytes <= MAX_TAIL_BYTES {
             #[cfg(rip_verif)]
             rip_kernel::verif::point("scan.iter", "compile_input.tail");
@@ -1501,6 +1503,8 @@ impl ContinuityStore {
         const MAX_TAIL_EVENTS: usize = 10_000;
 
         let mut tail_bytes = INITIAL_TAIL_BYTES;
+        #[cfg(rip_verif)]
+        rip_kernel::verif::point("scan.enter", "compaction_status.tail");
         while tail_bytes <= MAX_TAIL_BYTES
             && (last_schedule_decision.is_none() || last_job_outcome.is_none())
         {
@@ -1773,6 +1777,8 @@ impl ContinuityStore {
 
         let mut tail_bytes = INITIAL_TAIL_BYTES;
         let mut scanned_sidecar = false;
+        #[cfg(rip_verif)]
+        rip_kernel::verif::point("scan.enter", "cursor_status.tail");
         while tail_bytes <= MAX_TAIL_BYTES {
             #[cfg(rip_verif)]
             rip_kernel::verif::point("scan.iter", "cursor_status.tail");
@@ -1959,6 +1965,8 @@ impl ContinuityStore {
 
         let mut target: Option<(String, Option<String>, Option<String>)> = None;
         let mut tail_bytes = INITIAL_TAIL_BYTES;
+        #[cfg(rip_verif)]
+        rip_kernel::verif::point("scan.enter", "cursor_rotate.tail");
         while tail_bytes <= MAX_TAIL_BYTES && target.is_none() {
             #[cfg(rip_verif)]
             rip_kernel::verif::point("scan.iter", "cursor_rotate.tail");
@@ -2074,6 +2082,8 @@ impl ContinuityStore {
         let mut tail_complete = false;
         let mut scanned_sidecar = false;
         let mut tail_bytes = INITIAL_TAIL_BYTES;
+        #[cfg(rip_verif)]
+        rip_kernel::verif::point("scan.enter", "selection_status.tail");
         while tail_bytes <= MAX_TAIL_BYTES && decisions.len() < limit {
             #[cfg(rip_verif)]
             rip_kernel::verif::point("scan.iter", "selection_status.tail");
